@@ -346,6 +346,9 @@ func runSlowCases(r *mon.Run, cases []SlowCase) {
 	defer s.Close()
 	l := &slowLane{s: s, srvs: map[string]*wire.Server{}}
 	defer l.close()
+	if len(cases) > 1 {
+		runAgedConnections(r, l)
+	}
 	// cells without mux options first: a class that already failed there is
 	// not run again (each failing cell costs the watchdog) nor reported again
 	// under a larger option mask
@@ -430,4 +433,81 @@ func runSlowBodies(r *mon.Run) {
 func replaySlow(r *mon.Run, c *SlowCase) {
 	runSlowCases(r, []SlowCase{*c})
 	r.Distinct("slowbody:replay")
+}
+
+// runAgedConnections: deadline cells over ONE long-lived cleartext HTTP/2
+// connection to a server built by larking.NewServer. The deadline a handler
+// sees is T after receipt of THAT request, however old the connection is:
+// the same logical bounds as everywhere (t_request_sent + T <= deadline <=
+// t_handler_entry + T) are applied to calls made on a fresh connection, after
+// the connection has aged a few hundred milliseconds, and to a call whose
+// timeout is shorter than the age of the connection.
+func runAgedConnections(r *mon.Run, l *slowLane) {
+	masks := c15Masks()
+	for _, o := range []Opts{masks[0], masks[7]} {
+		srv, err := l.serverFor(o)
+		if err != nil {
+			r.Inconclusive("aged-connection cells: " + err.Error())
+			return
+		}
+		client := wire.H2CClient()
+		with := ""
+		if !o.none() {
+			with = ":with=" + o.key()
+		}
+		call := func(value, method, stage string) {
+			id := fmt.Sprintf("a%d", atomic.AddInt64(&l.s.seq, 1))
+			rec := &dlRec{}
+			l.s.recs.Store(id, rec)
+			defer l.s.recs.Delete(id)
+			body := wire.Frame(nil, false)
+			if method == "Bidi" {
+				body = nil
+			}
+			req, _ := http.NewRequest("POST", srv.URL+l.s.std.Full(method), strings.NewReader(string(body)))
+			req.Header.Set("Content-Type", "application/grpc")
+			req.Header.Set("Te", "trailers")
+			req.Header.Set("Grpc-Timeout", value)
+			req.Header.Set("X-Scn", id)
+			tSent := time.Now()
+			resp, err := client.Do(req)
+			if err == nil {
+				io.Copy(io.Discard, resp.Body)
+				resp.Body.Close()
+			}
+			r.Eval(1)
+			r.Count("aged_connection_calls", 1)
+			rec.mu.Lock()
+			obs := append([]dlObs(nil), rec.obs...)
+			rec.mu.Unlock()
+			T, _ := timeoutOf(value)
+			cse := map[string]any{"part": "aged-connection", "stage": stage, "value": value, "method": method, "opts": o}
+			key := func(k string) string { return "h2c-grpc/one-connection/" + stage + ":" + k + with }
+			if len(obs) == 0 {
+				r.Violate(key("handler-not-reached"), fmt.Sprintf("grpc-timeout %q on a %s connection: the method handler was not invoked (client error: %v)", value, stage, err), cse)
+				return
+			}
+			ob := obs[0]
+			switch {
+			case !ob.has:
+				r.Violate(key("deadline-missing"), fmt.Sprintf("grpc-timeout %q on a %s connection: no deadline", value, stage), cse)
+			case ob.deadline.Sub(tSent) < T:
+				r.Violate(key("deadline-early"), fmt.Sprintf("grpc-timeout %q on a %s connection: the handler's deadline is %v after the request was sent, want >= %v (T after receipt of the request, not of the connection)", value, stage, ob.deadline.Sub(tSent), T), cse)
+			case ob.deadline.Sub(ob.tEntry) > T:
+				r.Violate(key("deadline-late"), fmt.Sprintf("grpc-timeout %q on a %s connection: deadline %v after handler entry, want <= %v", value, stage, ob.deadline.Sub(ob.tEntry), T), cse)
+			default:
+				r.Distinct("aged-connection:" + stage + "/" + method + "/" + o.key())
+			}
+		}
+		call("20S", "Echo", "fresh")
+		call("20S", "Bidi", "fresh")
+		time.Sleep(400 * time.Millisecond)
+		call("20S", "Echo", "aged")
+		call("20S", "Bidi", "aged")
+		call("20000m", "Echo", "aged")
+		// a timeout shorter than the age of the connection
+		call("200m", "Echo", "older-than-timeout")
+		call("200m", "Bidi", "older-than-timeout")
+		client.CloseIdleConnections()
+	}
 }
